@@ -2,7 +2,7 @@
 From Coq Require Import List NArith ZArith Bool Lia.
 From Dials Require Import Base.Outcome Base.Runes Reflect.Ty Reflect.Ptrify Reflect.Heap Stack.Overlay
   Copy.DeepCopy Copy.DeepCopySpec Copy.DeepCopyBasics Copy.DeepCopyInv Copy.DeepCopyTerm Copy.Canon
-  Stack.ComposeH Stack.ComposeHProofs Stack.History Stack.HistoryProofs.
+  Stack.ComposeH Stack.ComposeHProofs Stack.ComposeHShift Stack.History Stack.HistoryProofs.
 Import ListNotations.
 Open Scope N_scope.
 
@@ -87,4 +87,37 @@ Proof.
   intros fuel fs h n0 defaults evs H N d vs H1 H2 H3.
   apply (versions_pairwise_disjoint_l fuel fs h n0 defaults evs H N d vs); auto using wf_heapb_ok.
   apply N.ltb_lt; auto.
+Qed.
+
+(* stacking the same inputs twice, one call after the other *)
+Theorem compose_deterministic_b : forall fuel fs h n0 d layers h1 n1 d1,
+  wf_heapb h n0 = true -> d <? n0 = true -> layers_below n0 layers = true ->
+  compose_h fuel fs h n0 d layers = Done ((h1, n1), d1) ->
+  let dl := n1 - n0 in
+  exists h2, compose_h fuel fs h1 n1 d layers = Done ((h2, n1 + dl), d1 + dl) /\
+    (forall a o, n0 <= a -> hget h1 a = Some o -> hget h2 (a + dl) = Some (map_addr_obj (fun x => x + dl) o)) /\
+    (forall a, a < n1 -> hget h2 a = hget h1 a) /\
+    (forall a, reach h2 [(RCell, d1)] a -> reach h2 [(RCell, d1 + dl)] a -> False).
+Proof.
+  intros fuel fs h n0 d layers h1 n1 d1 G1 G2 G3 H dl.
+  apply wf_heapb_ok in G1. apply N.ltb_lt in G2. apply layers_below_ok in G3.
+  destruct (compose_h_ok h n0 G1 _ _ _ _ _ _ G2 G3 H) as [C Hd1]. simpl in Hd1.
+  pose proof (c_lo _ _ _ C) as Hlo. simpl in Hlo.
+  assert (Hag : forall a, a < n0 -> hget h1 a = hget h a) by (apply (c_frame _ _ _ C)).
+  destruct (compose_deterministic_l fuel fs h n0 d layers h1 n1 d1 h1 n1 G1 G2 G3 H Hlo Hag) as (h2 & E & Sh & Lo).
+  fold dl in E, Sh. exists h2. split; [exact E|split; [exact Sh|]].
+  pose proof (cinv_wf _ _ _ G1 C) as Hwf1. simpl in Hwf1.
+  assert (G2' : d < n1) by lia.
+  assert (G3' : Forall (fun l => l < n1) layers).
+  { apply Forall_forall. intros l Hl. rewrite Forall_forall in G3. apply G3 in Hl. lia. }
+  destruct (compose_inputs_unchanged_l _ _ _ _ _ _ _ _ _ Hwf1 G2' G3' E) as [Un _].
+  split; [exact Un|].
+  intros a R1 R2.
+  destruct (compose_fresh_l _ _ _ _ _ _ _ _ _ Hwf1 G2' G3' E) as [_ Fr2].
+  apply Fr2 in R2 as [R2 _].
+  assert (R1' : n0 <= a < n1).
+  { eapply reach_closed; [|exact R1|].
+    - intros x o Hx Hge Hlt. rewrite Un in Hx by auto. apply (c_region _ _ _ C x o Hx Hge).
+    - intros k b [Eq|[]]. inversion Eq; subst. auto. }
+  lia.
 Qed.
